@@ -249,10 +249,44 @@ def analyse(model: IterModel) -> List[Obligation]:
     if "next" in model.methods and model.methods["next"].get("mir"):
         ip, rets, i0, b0, _ = run("next", False, [], "any")
         add("O3", "next", "some return is reachable", bool(rets))
-        for st in rets:
+
+        def delegates(st):
             r = result(st)
-            ok = bool(r) and r[0] == "nth_of_self" and r[1] is not None and r[1][0] == "lin" and r[1][1] == Lin.const(0)
-            add("O3", "next", "next() == nth(0)", ok, "result %s" % (r,))
+            return bool(r) and r[0] == "nth_of_self" and r[1] is not None and r[1][0] == "lin" and r[1][1] == Lin.const(0)
+        if rets and all(delegates(st) for st in rets):
+            for st in rets:
+                add("O3", "next", "next() == nth(0)", True, "result %s" % (result(st),))
+        else:
+            # next() with a body of its own: the specification of nth with n = 0
+            ip, rets, i0, b0, _ = run("next", False, lambda i0, b0, n: [N - (i0 + one + b0)], "items remain")
+            if model.N > 0 or model.symbolic:
+                add("O3", "next [items remain]", "some return is reachable", bool(rets))
+            for st in rets:
+                r = result(st)
+                w = "next [items remain]"
+                if delegates(st):
+                    add("O3", w, "next() == nth(0)", True, "result %s" % (r,))
+                    continue
+                if r and r[0] == "get":
+                    add("O3", w, "yields get(idx)", entails_eq(st.cons, r[1], i0), "argument %s" % (r[1],))
+                    f, b = cursor(st, model.front), cursor(st, model.back)
+                    add("O3", w, "idx' = idx + 1", f is not None and entails_eq(st.cons, f, i0 + one), "idx' = %s" % (f,))
+                    add("O3", w, "back_idx' = back_idx", b is not None and entails_eq(st.cons, b, b0), "back' = %s" % (b,))
+                else:
+                    add("O3", w, "yields an item (the None edge is infeasible)", False, "result %s" % (r[:3] if r else r,))
+                inv_at(st, w)
+            ip, rets, i0, b0, _ = run("next", False, lambda i0, b0, n: [(i0 + one + b0) - N - one], "exhausted")
+            add("O3", "next [exhausted]", "some return is reachable", bool(rets))
+            for st in rets:
+                r = result(st)
+                w = "next [exhausted]"
+                if delegates(st):
+                    add("O3", w, "next() == nth(0)", True, "result %s" % (r,))
+                    continue
+                add("O3", w, "returns None (the get edge is infeasible)", is_none(r), "result %s" % (r[:3] if r else r,))
+                f, b = cursor(st, model.front), cursor(st, model.back)
+                add("O3", w, "stays exhausted: idx' + back_idx' >= N", f is not None and b is not None and entails(st.cons, f + b - N), "idx'=%s back'=%s" % (f, b))
+                inv_at(st, w)
     else:
         add("O3", "next", "next() is generated", False)
     # ---------------- clone ----------------
